@@ -195,7 +195,10 @@ impl InlineTable {
 
     /// Returns an accessor to a key's formatting
     pub fn key(&self, key: &str) -> Option<&'_ Key> {
-        self.items.get_full(key).map(|(_, key, _)| key)
+        self.items
+            .get_full(key)
+            .filter(|(_, _, value)| !value.is_none())
+            .map(|(_, key, _)| key)
     }
 
     /// Returns an accessor to a key's formatting
@@ -203,6 +206,7 @@ impl InlineTable {
         use indexmap::map::MutableKeys;
         self.items
             .get_full_mut2(key)
+            .filter(|(_, _, value)| !value.is_none())
             .map(|(_, key, _)| key.as_mut())
     }
 
@@ -253,6 +257,14 @@ impl InlineTable {
 }
 
 impl InlineTable {
+    /// Drops the placeholder (`Item::None`) that mutable indexing may have left under `key`,
+    /// so that the key is vacant for the entry / insert paths, like for every reader.
+    pub(crate) fn remove_placeholder(&mut self, key: &str) {
+        if let Some(Item::None) = self.items.get(key) {
+            self.items.shift_remove(key);
+        }
+    }
+
     /// Returns an iterator over key/value pairs.
     pub fn iter(&self) -> InlineTableIter<'_> {
         Box::new(
@@ -291,7 +303,9 @@ impl InlineTable {
 
     /// Gets the given key's corresponding entry in the Table for in-place manipulation.
     pub fn entry(&'_ mut self, key: impl Into<InternalString>) -> InlineEntry<'_> {
-        match self.items.entry(key.into().into()) {
+        let key = key.into();
+        self.remove_placeholder(&key);
+        match self.items.entry(key.into()) {
             indexmap::map::Entry::Occupied(mut entry) => {
                 // Ensure it is a `Value` to simplify `InlineOccupiedEntry`'s code.
                 let scratch = std::mem::take(entry.get_mut());
@@ -312,6 +326,7 @@ impl InlineTable {
 
     /// Gets the given key's corresponding entry in the Table for in-place manipulation.
     pub fn entry_format<'a>(&'a mut self, key: &Key) -> InlineEntry<'a> {
+        self.remove_placeholder(key.get());
         // Accept a `&Key` to be consistent with `entry`
         match self.items.entry(key.clone()) {
             indexmap::map::Entry::Occupied(mut entry) => {
@@ -383,6 +398,7 @@ impl InlineTable {
         value: V,
     ) -> &mut Value {
         let key = key.into();
+        self.remove_placeholder(&key);
         self.items
             .entry(Key::new(key))
             .or_insert(Item::Value(value.into()))
@@ -394,6 +410,7 @@ impl InlineTable {
     pub fn insert(&mut self, key: impl Into<InternalString>, value: Value) -> Option<Value> {
         use indexmap::map::MutableEntryKey;
         let key = Key::new(key);
+        self.remove_placeholder(key.get());
         let value = Item::Value(value);
         match self.items.entry(key.clone()) {
             indexmap::map::Entry::Occupied(mut entry) => {
@@ -411,6 +428,7 @@ impl InlineTable {
     /// Inserts a key-value pair into the map.
     pub fn insert_formatted(&mut self, key: &Key, value: Value) -> Option<Value> {
         use indexmap::map::MutableEntryKey;
+        self.remove_placeholder(key.get());
         let value = Item::Value(value);
         match self.items.entry(key.clone()) {
             indexmap::map::Entry::Occupied(mut entry) => {
@@ -467,8 +485,9 @@ impl std::fmt::Display for InlineTable {
 impl<K: Into<Key>, V: Into<Value>> Extend<(K, V)> for InlineTable {
     fn extend<T: IntoIterator<Item = (K, V)>>(&mut self, iter: T) {
         for (key, value) in iter {
-            let key = key.into();
+            let key: Key = key.into();
             let value = Item::Value(value.into());
+            self.remove_placeholder(key.get());
             self.items.insert(key, value);
         }
     }
@@ -551,6 +570,7 @@ impl TableLike for InlineTable {
         self.clear();
     }
     fn entry<'a>(&'a mut self, key: &str) -> crate::Entry<'a> {
+        self.remove_placeholder(key);
         // Accept a `&str` rather than an owned type to keep `InternalString`, well, internal
         match self.items.entry(key.into()) {
             indexmap::map::Entry::Occupied(entry) => {
@@ -562,6 +582,7 @@ impl TableLike for InlineTable {
         }
     }
     fn entry_format<'a>(&'a mut self, key: &Key) -> crate::Entry<'a> {
+        self.remove_placeholder(key.get());
         // Accept a `&Key` to be consistent with `entry`
         match self.items.entry(key.get().into()) {
             indexmap::map::Entry::Occupied(entry) => {
